@@ -80,7 +80,7 @@ func main() {
 }
 
 func famSeq(c *mon.Ctx) {
-	c.Family("seq", nCases(c, 300, 30000), func(k *mon.Case) {
+	c.Family("seq", nCases(c, 300, 12000), func(k *mon.Case) {
 		cf := randCfg(k.Rand)
 		k.Desc(cf)
 		dir := caseDir(k)
